@@ -274,13 +274,27 @@ func (g *G) Image(docker bool) *Node {
 // Artifact generates an OCI artifact manifest (image manifest with
 // artifactType / empty config) naming subject.
 func (g *G) Artifact(subject *Node, artType string) *Node {
+	return g.artifact(subject, artType, nil)
+}
+
+// ArtifactCarrying generates an artifact whose single layer is the given content (e.g. the bytes of another
+// manifest, as tools that archive or attest manifests store them).
+func (g *G) ArtifactCarrying(data []byte, mediaType, artType string) *Node {
+	b := &Blob{Data: data, Hosted: true, Desc: Desc{MediaType: mediaType, Digest: regmodel.Digest(g.Alg, data), Size: len(data)}}
+	return g.artifact(nil, artType, b)
+}
+
+func (g *G) artifact(subject *Node, artType string, layer *Blob) *Node {
 	n := &Node{Kind: "artifact", MediaType: MTOCIManifest, ArtType: artType}
 	empty := &Blob{Data: []byte("{}"), Hosted: true, Desc: Desc{MediaType: MTOCIEmpty, Digest: regmodel.Digest(g.Alg, []byte("{}")), Size: 2}}
 	n.Blobs = append(n.Blobs, empty)
-	b := g.blob("application/vnd.example.data")
-	// the usual shape of an artifact without content of its own: the empty JSON blob is both config and layer
-	if g.c(4, "cfglayer") == 3 {
-		b = empty
+	b := layer
+	if b == nil {
+		b = g.blob("application/vnd.example.data")
+		// the usual shape of an artifact without content of its own: the empty JSON blob is both config and layer
+		if g.c(4, "cfglayer") == 3 {
+			b = empty
+		}
 	}
 	n.Blobs = append(n.Blobs, b)
 	g.n++
